@@ -1,5 +1,7 @@
 import Dcg.Model.Constraints
 import Dcg.Gen.Constraints
+import Dcg.Proofs.Sem
+import Dcg.Props.C03
 /-
 C04 — constraints stated in the schema are enforced by the generated model.
 Part 1 (this file): the keyword tables. The statements quantify over the tables regenerated from
@@ -133,5 +135,90 @@ theorem extra_forbid_iff_additionalProperties_false :
       ((extraMap st).lookup ap = some "forbid" ↔ ap = "false") ∧
       ((extraMap st).lookup ap = some "allow" ↔ ap = "true") := by
   decide +kernel
+
+/-! ## Part 2: a value the generated model accepts is valid under the schema
+
+Same objects as C03 (`validJ`/`validJN`, `tr`, `acceptsTy`), the other direction. `validJN` is
+validity up to the exemption of the property text: `null` given for a non-required member.
+`acceptsTy = accept` excludes pydantic's lax coercions (`laxZone`), the other exemption. -/
+
+open Dcg.Sem Dcg.Sem.Pyd Dcg.Model.Translate Dcg.Proofs.Sem
+
+/-- FULL STRENGTH: whatever the generated model accepts (without coercion) is valid — no supported
+constraint is lost. Kept visible; FALSE on the pinned tree (three refutations below). -/
+def ViolationRejected : Prop :=
+  ∀ (st : Style) (o : Opts) (re : Regex) (defs : Defs) (g : Nat) (ctx : Ctx) (s : Schema) (v : Json),
+    acceptsTy st re g (trDefs st o defs) (tr st o ctx s) v = .accept → validJN re g defs s v = true
+
+/-- PARTIAL (unbounded in schema depth, value size, `$ref` recursion and fuel; both styles, all
+routings, every regex oracle): on `InSubset ∩ oneOfFree ∩ strictSafe` an accepted value is valid.
+Equivalently: a value that violates `required`, a type, enum/const membership, any numeric / length
+/ pattern / item-count bound or `additionalProperties: false` is rejected or needs a lax coercion.
+`strictSafe` excludes exactly the places where the pinned tree loses a constraint: a constrained
+scalar as `additionalProperties` value under `field_constraints` (D11), item counts of an array that
+is neither a member nor a definition without `field_constraints` (D31), a required `const` member
+in v1-style output (D30); `oneOf` is excluded because a `Union` accepts a value matching two
+alternatives. (A required member whose schema admits null — D7 — is `laxZone` in `acceptsTy`.) -/
+theorem violation_rejected_partial (st : Style) (o : Opts) (re : Regex) (defs : Defs)
+    (hd : defsInSubset defs = true) (hdo : Schema.propsOneOfFree defs = true)
+    (hds : defsStrict st o.fieldConstraints defs = true) (g : Nat) (ctx : Ctx) (s : Schema) (v : Json)
+    (hs : s.inSubset = true) (hof : s.oneOfFree = true)
+    (hss : strictSafe st o.fieldConstraints ctx s = true)
+    (hacc : acceptsTy st re g (trDefs st o defs) (tr st o ctx s) v = .accept) :
+    validJN re g defs s v = true :=
+  sd_all st o re defs (C03.tableOK st) hd hdo hds g g (Nat.le_refl _) ctx s v hs hof hss hacc
+
+/-- the same, read as the property states it: an invalid value is not accepted -/
+theorem violation_not_accepted (st : Style) (o : Opts) (re : Regex) (defs : Defs)
+    (hd : defsInSubset defs = true) (hdo : Schema.propsOneOfFree defs = true)
+    (hds : defsStrict st o.fieldConstraints defs = true) (g : Nat) (ctx : Ctx) (s : Schema) (v : Json)
+    (hs : s.inSubset = true) (hof : s.oneOfFree = true)
+    (hss : strictSafe st o.fieldConstraints ctx s = true)
+    (hinv : validJN re g defs s v = false) :
+    acceptsTy st re g (trDefs st o defs) (tr st o ctx s) v ≠ .accept := by
+  intro hacc
+  rw [violation_rejected_partial st o re defs hd hdo hds g ctx s v hs hof hss hacc] at hinv
+  cases hinv
+
+/-- non-vacuity: C03's demo document satisfies the hypotheses in both routings, and its model
+rejects the value just outside the exclusive bound -/
+example : C03.demoSchema.inSubset = true ∧ C03.demoSchema.oneOfFree = true ∧
+    strictSafe .v2 false .top C03.demoSchema = true ∧ strictSafe .v1 true .top C03.demoSchema = true ∧
+    defsStrict .v2 false C03.demoDefs = true ∧ Schema.propsOneOfFree C03.demoDefs = true ∧
+    validJN (fun _ _ => true) 12 C03.demoDefs C03.demoSchema (.obj [("a".toList, .num ⟨10, 0⟩)]) = false := by
+  decide +kernel
+
+/-- `required` (object level) reaches the IR: a member named in `required` is a required field,
+unless it is a `const` member of v1-style output (D30). -/
+theorem required_handling (st : Style) (o : Opts) (req : List (List Char))
+    (props : List (List Char × Schema)) (p : List Char × Schema) (hp : p ∈ props)
+    (hr : p.1 ∈ req) (hc : constDefaulted st p.2 = false) :
+    (p.1, true, fieldCons st o p.2, tr st o .plain p.2) ∈ trProps st o req props := by
+  rw [trProps_eq_map]
+  refine List.mem_map.mpr ⟨p, hp, ?_⟩
+  simp [hr, hc]
+
+/-- REFUTATION (D11): under `field_constraints`, `additionalProperties: {integer, minimum 0}` accepts `{"k": -1}` -/
+theorem violation_accepted_D11 : ¬ ViolationRejected := by
+  intro h
+  have := h .v2 { fieldConstraints := true } (fun _ _ => true) [] 3 .plain
+    (.dict (.scalar .integer false { minimum := some ⟨0, 0⟩ })) (.obj [("k".toList, .num ⟨-1, 0⟩)])
+    (by decide +kernel)
+  exact absurd this (by decide +kernel)
+
+/-- REFUTATION (D31): `[[1]]` is accepted although the inner array needs two items -/
+theorem violation_accepted_D31 :
+    acceptsTy .v2 (fun _ _ => true) 6 [] (tr .v2 {} .plain
+      (.array (.array (.scalar .integer false {}) (some 2) none) none none)) (.arr [.arr [.num ⟨1, 0⟩]])
+      = .accept ∧
+    validJN (fun _ _ => true) 6 [] (.array (.array (.scalar .integer false {}) (some 2) none) none none)
+      (.arr [.arr [.num ⟨1, 0⟩]]) = false := by decide +kernel
+
+/-- REFUTATION (D30): v1-style output accepts an object without its required `const` member -/
+theorem violation_accepted_D30 :
+    acceptsTy .v1 (fun _ _ => true) 4 [] (tr .v1 {} .top
+      (.object [("k".toList, .const (.str "zz".toList))] ["k".toList] .absent)) (.obj []) = .accept ∧
+    validJN (fun _ _ => true) 4 [] (.object [("k".toList, .const (.str "zz".toList))] ["k".toList] .absent)
+      (.obj []) = false := by decide +kernel
 
 end Dcg.Props.C04
